@@ -8,8 +8,11 @@ package shmipc
 
 import (
 	"fmt"
+	"os"
 	"testing"
 	"unsafe"
+
+	syscall "golang.org/x/sys/unix"
 )
 
 type c01mOp struct {
@@ -229,13 +232,95 @@ func totalSlotsAll(ns []int) int {
 	return t
 }
 
+// c01mSecondCreator: "in this process or the peer": a second creator on the same /dev/shm path (another
+// process — simulated by dropping the in-process registry entry) must be refused while the first holds
+// buffers; otherwise it re-initialises the free lists and hands out what is still held.
+func c01mSecondCreator(id int) c01mCase {
+	c := c01mCase{ID: id, Feat: []string{"second-creator-on-same-path"}}
+	oracle := map[string]bool{}
+	path := fmt.Sprintf("/dev/shm/verif_c01_%d_%d_buffer", os.Getpid(), id)
+	_ = os.Remove(path)
+	pairs := func() []*SizePercentPair { return []*SizePercentPair{{Size: 64, Percent: 50}, {Size: 256, Percent: 50}} }
+	func() {
+		defer func() {
+			if e := recover(); e != nil {
+				oracle["panic in a manager operation"] = true
+			}
+		}()
+		bm1, err := getGlobalBufferManager(path, 1<<16, true, pairs())
+		if err != nil {
+			c.Feat = append(c.Feat, "skipped:"+err.Error())
+			return
+		}
+		defer func() {
+			bufferManagers.Lock()
+			delete(bufferManagers.bms, path)
+			bufferManagers.Unlock()
+			bm1.unmap()
+		}()
+		held := map[uint32]*bufferSlice{}
+		for i := 0; i < 8; i++ {
+			s, err := bm1.allocShmBuffer(64)
+			if err != nil {
+				break
+			}
+			for k := range s.data {
+				s.data[k] = 0xA5
+			}
+			s.writeIndex = len(s.data)
+			s.update()
+			held[s.offsetInShm] = s
+		}
+		// another process would not see this registry
+		bufferManagers.Lock()
+		delete(bufferManagers.bms, path)
+		bufferManagers.Unlock()
+		bm2, err := getGlobalBufferManager(path, 1<<16, true, pairs())
+		if err != nil {
+			return // refused: the property's mechanism works
+		}
+		defer func() {
+			_ = syscall.Munmap(bm2.mem)
+		}()
+		for i := 0; i < 8; i++ {
+			s, err := bm2.allocShmBuffer(64)
+			if err != nil {
+				break
+			}
+			if _, dup := held[s.offsetInShm]; dup {
+				oracle["double ownership: buffer handed out while still held"] = true
+			}
+			for k := range s.data {
+				s.data[k] = 0x5A
+			}
+		}
+		for _, s := range held {
+			for _, b := range s.data {
+				if b != 0xA5 {
+					oracle["payload of a held buffer was altered by somebody else"] = true
+					break
+				}
+			}
+		}
+	}()
+	for k := range oracle {
+		c.Oracle = append(c.Oracle, k)
+	}
+	return c
+}
+
 func TestVerif_C01M(t *testing.T) {
 	seed := uint64(venvInt("VERIF_SEED", 1))
 	n := venvInt("VERIF_N", 300)
 	o := vopenOut(t)
 	defer o.close()
 	r := newVrand(seed + 77)
-	for id := 0; id < n; id++ {
+	id := 0
+	for ; id < n; id++ {
 		o.emit(c01mRun(id, r))
+	}
+	for k := 0; k < 2; k++ {
+		o.emit(c01mSecondCreator(id))
+		id++
 	}
 }
